@@ -254,7 +254,8 @@ def check(ctx):
             # ---- build tag
             for d in sc["matched"]:
                 op = outpath(d)
-                if "tag_goose.go" in sc["pkgs"][d] and op in after and not unwritable:
+                written_now = (not sc["errs"][d]) or (sc["ignore"] and sc["kinds"][d] != "broken")    # else the file is the planted older one
+                if "tag_goose.go" in sc["pkgs"][d] and op in after and not unwritable and written_now:
                     txt = after[op][0].decode()
                     stats["tagged_packages"] += 1
                     if "OnlyGoose" not in txt or "NotGoose" in txt:
